@@ -91,11 +91,19 @@ def sm_names(ctx):
         sep = None
         if seps and seps[0].args and isinstance(seps[0].args[0], ast.Constant):
             sep = seps[0].args[0].value
+        # the local that holds the split name
+        iv = None
+        for n in ast.walk(m.node):
+            if isinstance(n, ast.Assign) and seps and n.value is seps[0] and \
+                    isinstance(n.targets[0], ast.Name):
+                iv = n.targets[0].id
+        ctx.need(iv is not None, '%s: split state name is not bound to a local' % mname)
         got = set()
         for n in ast.walk(m.node):
             if isinstance(n, ast.Compare) and len(n.ops) == 1 and isinstance(n.ops[0], ast.Eq) \
                     and isinstance(n.comparators[0], ast.Constant) and \
-                    isinstance(n.comparators[0].value, str) and 'items[0]' in norm_text(n.left):
+                    isinstance(n.comparators[0].value, str) and \
+                    norm_text(n.left) == '%s[0]' % iv:
                 got.add(n.comparators[0].value)
         want = {t.split('{')[0].rstrip('_') for t in a}
         seps_in_tpl = {t[len(t.split('_')[0])] for t in a}
@@ -112,9 +120,9 @@ def sm_names(ctx):
                     isinstance(n.value, ast.Subscript) and \
                     norm_text(n.value.value) == 'XYZ_TO_INDEX':
                 t = norm_text(n.value.slice)
-                if t == 'items[1][0]':
+                if t == '%s[1][0]' % iv:
                     role[n.targets[0].id] = 0
-                elif t == 'items[1][1]':
+                elif t == '%s[1][1]' % iv:
                     role[n.targets[0].id] = 1
         subs = [n for n in ast.walk(m.node) if isinstance(n, ast.Subscript) and
                 norm_text(n.value) == 'self.transform' and isinstance(n.slice, ast.Tuple)]
